@@ -6,6 +6,8 @@ pub mod fmt;
 pub mod known;
 pub mod props;
 pub mod queue;
+#[cfg(cadence_verif)]
+pub mod sched;
 pub mod sockets;
 pub mod util;
 pub mod writer;
